@@ -481,7 +481,14 @@ func ToPairAlign(samIn, ref io.Reader, outpath string, wrap int, trimStart int, 
 
 	go groupSamRecords(samIn, cSH, cSR, cReadDone, cErr)
 
-	_ = <-cSH
+	select {
+	case header := <-cSH:
+		if len(header.Refs()) == 0 {
+			return errors.New("no reference sequence (@SQ line) in the sam header")
+		}
+	case err := <-cErr:
+		return err
+	}
 
 	go writePairwiseAlignment(outpath, wrap, cPairTrim, cWriteDone, cErr, omitRef)
 
